@@ -288,6 +288,16 @@ def gen_cases(prop, tier, seed):
     rng = random.Random(seed * 7919 + (12 if prop == "C12" else 13))
     fams = FAMILIES_C12 if prop == "C12" else FAMILIES_C13
     n = (2400 if tier == "quick" else 40000)
+    from . import sched
+    erng = random.Random(seed * 7919 + 1212)
+    bases = []
+    k = 0
+    while len(bases) < 40 and k < 2000:
+        fam = fams[k % len(fams)]; k += 1
+        ls = gen_scenario(erng, fam)
+        if len(ls) <= 26:
+            bases.append((f"{fam}{len(bases)}", ls))
+    yield from sched.enum_cases(prop, HARNESS, bases, tier, os.path.join(common.BUILD, "sched-c12"))
     for i in range(n):
         fam = fams[i % len(fams)]
         yield (f"{fam}-{i}", gen_scenario(rng, fam))
